@@ -160,8 +160,8 @@ type spec struct {
 	EndExtra []int // additional (heavy) kinds for the last slot
 	HashBang []bool
 	Cfgs     []namedCfg
-	Real     bool // also drive the production entry point formatter.Format
-	Prune    bool // sequences with ill-nested brackets: light assignments only
+	Real     bool  // also drive the production entry point formatter.Format
+	Prune    bool  // sequences with ill-nested brackets: light assignments only
 	Alpha    []int // indices into alphabet; nil = the whole alphabet
 	Glue     bool  // the light trivia are fixed by position: "" at the start and after a prefix token (' #' #^), "\n" at the end, " " elsewhere
 	GlueNL   bool  // with Glue: "\n" is a second light choice in every slot except directly after #' and #^
@@ -487,7 +487,7 @@ func run(r *core.Run) {
 	var specs []spec
 	small := []int{0, 1, 2, 3, 4, 5, 6, 7, 10} // ( ) [ ] ' #' #^ a 1
 	lightX := append(append([]int{}, light...), tvTwoSp)
-	wide := make([]int, len(alphabet))                 // the 16 tokens plus the two-line raw string
+	wide := make([]int, len(alphabet)) // the 16 tokens plus the two-line raw string
 	for i := range wide {
 		wide[i] = i
 	}
